@@ -264,5 +264,143 @@ class SortStartsEnds(Case):
         return [list(map(o, r[0])), list(map(o, r[1]))]
 
 
-CASES = [CInit(), SortStartsEnds(1), SortStartsEnds(2), SortStartsEnds(3)]
+# ---- _combine_blocks ---------------------------------------------------------------------------------------------
+def _cb_inv(interp, ns, k, frame):
+    import z3
+    selfv = frame.lookup("self")[1]
+    V = view(selfv)
+    pres = frame.lookup("preserve_overlappers")[1]
+    NS_, NE_ = ns.new_starts, ns.new_ends
+    m = NS_.length
+    cs, ce = ns.curr_start, ns.curr_end
+    t = z3.Int("cb!t")
+    j = z3.Int("cb!j")
+    t2 = z3.Int("cb!t2")
+    p = z3.Int("cb!p")
+    j2 = z3.Int("cb!j2")
+    nsa, nea = NS_.arrs[0], NE_.arrs[0]
+    own = getattr(ns, "$own")
+    return And(
+        0 <= k, k <= V.n, NE_.length == m, 0 <= m, m <= k,
+        Iff(cs.is_none, m == 0), Iff(ce.is_none, m == 0),
+        Implies(m > 0, And(nsa[m - 1] == cs.val, nea[m - 1] == ce.val, k > 0, cs.val <= V.S(k - 1))),
+        Implies(Not(ns.needs_combining), m == k),
+        # N1 no empty output block
+        z3.ForAll([t], z3.Implies(z3.And(0 <= t, t < m), nsa[t] < nea[t])),
+        # N2 consecutive output blocks are separated (not mergeable), and ordered by start
+        z3.ForAll([t], z3.Implies(z3.And(0 <= t, t < m - 1),
+                                  z3.And(nsa[t] <= nsa[t + 1],
+                                         z3.If(pres, nea[t] != nsa[t + 1], nea[t] < nsa[t + 1])))),
+        z3.ForAll([t], z3.Implies(z3.And(0 <= t, t < m), 0 <= nsa[t])),
+        # N3 every non-empty input block seen so far lies inside its owner output block (ghost owner map $own)
+        z3.ForAll([j], z3.Implies(z3.And(0 <= j, j < k, V.S(j) < V.E(j)),
+                                  z3.And(0 <= own[j], own[j] < m, nsa[own[j]] <= V.S(j), V.E(j) <= nea[own[j]])),
+                  patterns=[own[j]]),
+        # untouched prefix when nothing was combined
+        Implies(Not(ns.needs_combining), z3.ForAll([t], z3.Implies(z3.And(0 <= t, t < m),
+                                                                   z3.And(nsa[t] == V.S(t), nea[t] == V.E(t))))),
+    )
+
+
+def _cb_ghost_init(interp, frame):
+    import z3
+    frame.locals["$own"] = z3.K(z3.IntSort(), z3.IntVal(0))
+
+
+def _cb_ghost_step(interp, frame, k):
+    """owner of input block k := the last output block (the one it was merged into or appended as)."""
+    import z3
+    from pyvc.symex_eval import _z
+    ns_ = frame.locals["new_starts"]
+    m = ns_.length if hasattr(ns_, "get") else len(ns_)
+    frame.locals["$own"] = z3.Store(frame.locals["$own"], k, _z(m) - 1)
+
+
+lib.LOOPS[(Q + "_combine_blocks", 0)] = LoopSpec(
+    {"new_starts": "intlist", "new_ends": "intlist", "curr_start": "optint", "curr_end": "optint",
+     "needs_combining": "bool", "$own": "intarray"}, _cb_inv, "blocks",
+    ghost_init=_cb_ghost_init, ghost_step=_cb_ghost_step)
+
+
+def cov_result(r, p):
+    """position p is covered by the returned location (engine Obj with symbolic block count, or real object)."""
+    cn = class_name(r)
+    if cn == "_EmptyLocation":
+        return False
+    if cn == "SingleInterval":
+        return And(r.start <= p, p < r.end)
+    n = _seq_len(r._starts)
+    return ExistsRange(0, n, lambda t: And(_seq_get(r._starts, t) <= p, p < _seq_get(r._ends, t)), "cv")
+
+
+def normalised(r, preserve):
+    cn = class_name(r)
+    if cn == "_EmptyLocation":
+        return True
+    if cn == "SingleInterval":
+        return r.start < r.end
+    n = _seq_len(r._starts)
+    return And(ForAllRange(0, n, lambda t: _seq_get(r._starts, t) < _seq_get(r._ends, t), "n1"),
+               ForAllRange(0, n - 1, lambda t: If(preserve, _seq_get(r._ends, t) != _seq_get(r._starts, t + 1),
+                                                  _seq_get(r._ends, t) < _seq_get(r._starts, t + 1)), "n2"))
+
+
+def _pairwise_disjoint(V):
+    n = V.n
+    return And(*[V.E(a) <= V.S(b) for b in range(n) for a in range(b)]) if n > 1 else True
+
+
+def _fin(i, r, f):
+    """clause evaluated only where the block count is concrete (finite-scope proof, native)."""
+    if not isinstance(i.V.n, int):
+        return SKIP
+    return f()
+
+
+class CombineBlocks(Case):
+    props = ("C02",)
+    scopes = (1, 2, 3)
+    name = "CompoundInterval._combine_blocks[any number of blocks]"
+    func = Q + "_combine_blocks"
+    call = "self._combine_blocks(preserve)"
+    loops = ((Q + "_combine_blocks", 0),)
+    also_scopes = (1, 2, 3, 4)
+    # known finding F-C02-2 (see known_findings.json): with preserve_overlappers=True and blocks that overlap each
+    # other, the constructor re-sorts the merged blocks and can leave two adjacent blocks next to each other.  The
+    # clause is proved for every input outside that carve-out.
+    known = {"no-empty-or-mergeable-blocks": dict(id="F-C02-2", carve=lambda i: And(i.preserve, Not(_pairwise_disjoint(i.V))))}
+    # The loop invariants N1-N3 (no empty output block, consecutive blocks separated and ordered, every input block
+    # inside its owner output block) are proved for ANY number of blocks.  The clauses below speak about the object
+    # re-sorted by the constructor; they are proved with the block count fixed (1..4, all coordinates) and checked
+    # natively in the bounded tier.
+    ensures = {
+        "covers-every-input-position": lambda i, r: _fin(i, r, lambda: Implies(i.V_cov(i.p), cov_result(r, i.p))),
+        "covers-only-input-positions": lambda i, r: _fin(i, r, lambda: Implies(cov_result(r, i.p), i.V_cov(i.p))),
+        "no-empty-or-mergeable-blocks": lambda i, r: _fin(i, r, lambda: normalised(r, i.preserve)),
+        "empty-iff-all-blocks-empty": lambda i, r: _fin(i, r, lambda: Iff(
+            class_name(r) == "_EmptyLocation", ForAllRange(0, i.V.n, lambda j: i.V.S(j) == i.V.E(j), "ae"))),
+        "strand-kept": lambda i, r: class_name(r) == "_EmptyLocation" or (
+            enum_eq(r.strand, i.self.strand) if hasattr(r.strand, "idx") else r.strand is i.self.strand),
+    }
+
+    def inputs(self, S):
+        c, V = compound(S, "self", directed=False)
+        p = S.int("p")
+        i = NS(self=c, V=V, p=p, preserve=S.bool("preserve"))
+        i.V_cov = lambda q: ExistsRange(0, V.n, lambda j: V.covers(j, q), "ic")
+        return i
+
+    def samples(self, rng):
+        d = sample_compound(rng, "self", directed=False)
+        d.update(p=rng.randint(0, 24), preserve=rng.random() < 0.5)
+        return d
+
+    def observe(self, r):
+        from .c02_single import obs_loc
+        return obs_loc(r)
+
+
+from .c01_compound import sample_compound  # noqa
+
+CASES = [CombineBlocks(), CInit(), SortStartsEnds(1), SortStartsEnds(2), SortStartsEnds(3)]
 LIB = lib.LIB
